@@ -662,23 +662,81 @@ pub fn long_history(u: &[LMember], uname: &str, pid: &str, rot: usize, reversed:
     }
     let mut fail: Option<(String, String)> = None;
     u1::reset_counters();
-    let (portable, ids, steps) = run_long(u, pid, &order, &mut fail, sweep_every);
+    let (portable, ids, mut steps) = run_long(u, pid, &order, &mut fail, sweep_every);
     if pid == "C05" {
         let (a, b) = u1::counters();
         if a > 1 || b > 1 {
             fail.get_or_insert(("evaluated-more-than-once".into(), format!("a type definition was evaluated {} times while building one registry", a.max(b))));
         }
     }
+    long_oracle(u, uname, pid, &order, None, &portable, &ids, &mut fail);
+    // the same roots handed over in batches (`register_types`): everything at once, and batches of 33 and 7.
+    // A batch is a sequence of registrations like any other, so the property's oracle applies unchanged.
+    for bsz in [n, 33, 7] {
+        u1::reset_counters();
+        match run_batched(u, &order, bsz) {
+            Err(e) => {
+                fail.get_or_insert(("batch-ids".into(), format!("{e} (batches of {bsz})")));
+            }
+            Ok((pb, idsb)) => {
+                steps += n as u64;
+                if pid == "C05" {
+                    let (a, b) = u1::counters();
+                    if a > 1 || b > 1 {
+                        fail.get_or_insert(("evaluated-more-than-once".into(), format!("a type definition was evaluated {} times while building one registry with register_types (batches of {bsz})", a.max(b))));
+                    }
+                }
+                let mut fb = None;
+                long_oracle(u, uname, pid, &order, Some(bsz), &pb, &idsb, &mut fb);
+                if let Some((k, m)) = fb {
+                    fail.get_or_insert((format!("batch:{k}"), format!("{m} [registered with register_types in batches of {bsz}]")));
+                }
+            }
+        }
+    }
+    (steps, portable.types.len(), fail.map(|(k, m)| (format!("long:{k}"), format!("{m} — all {n} members of {uname} registered in rotation {rot}{}", if reversed { " reversed" } else { "" }))))
+}
+
+/// registers `order` through `register_types`, `bsz` roots per call; the k-th id returned by a call belongs to the k-th root handed over
+fn run_batched(u: &[LMember], order: &[usize], bsz: usize) -> Result<(PortableRegistry, Vec<u32>), String> {
+    let mut reg = Registry::new();
+    let mut ids = vec![u32::MAX; u.len()];
+    for chunk in order.chunks(bsz.max(1)) {
+        let got = reg.register_types(chunk.iter().map(|i| u[*i].meta).collect::<Vec<_>>());
+        if got.len() != chunk.len() {
+            return Err(format!("register_types of {} types returned {} ids", chunk.len(), got.len()));
+        }
+        for (i, g) in chunk.iter().zip(got) {
+            ids[*i] = g.id;
+        }
+    }
+    Ok((reg.into(), ids))
+}
+
+/// the property's oracle on the final registry of a long history (`batch`: how the roots were handed over)
+#[allow(clippy::too_many_arguments)]
+fn long_oracle(u: &[LMember], uname: &str, pid: &str, order: &[usize], batch: Option<usize>, portable: &PortableRegistry, ids: &[u32], fail: &mut Option<(String, String)>) {
+    let n = u.len();
+    let rerun = |ord: &[usize]| -> Option<(PortableRegistry, Vec<u32>)> {
+        match batch {
+            None => {
+                let mut f = None;
+                let (p, i, _) = run_long(u, "", ord, &mut f, 0);
+                Some((p, i))
+            }
+            Some(b) => run_batched(u, ord, b).ok(),
+        }
+    };
     let metas: Vec<(MetaType, u32)> = order.iter().map(|i| (u[*i].meta, ids[*i])).collect();
     match pid {
         "C01" => {
             let snap: Snapshot = portable.types.iter().map(|t| (t.id, t.ty.clone())).collect();
-            if let Err(e) = c01_state(&snap, &portable, &ids) {
+            if let Err(e) = c01_state(&snap, portable, ids) {
                 fail.get_or_insert(("dense-closed".into(), e));
             }
         }
         "C02" => {
-            if let Err(e) = image_check(&portable, &metas) {
+            if let Err(e) = image_check(portable, &metas) {
                 fail.get_or_insert(("image".into(), e));
             }
         }
@@ -712,23 +770,21 @@ pub fn long_history(u: &[LMember], uname: &str, pid: &str, rot: usize, reversed:
             }
         }
         "C11" => {
-            let mut f2 = None;
-            let (p2, _, _) = run_long(u, "", &order, &mut f2, 0);
-            if p2.encode() != portable.encode() {
+            if rerun(order).map(|r| r.0.encode()) != Some(portable.encode()) {
                 fail.get_or_insert(("replay-differs".into(), "replaying the same registrations gave different bytes".into()));
             }
             let base: Vec<usize> = (0..n).collect();
             let mut f3 = None;
             let (p0, ids0, _) = run_long(u, "", &base, &mut f3, 0);
+            let _ = f3;
             if ids.iter().any(|i| *i as usize >= portable.types.len()) || ids0.iter().any(|i| *i as usize >= p0.types.len()) {
                 fail.get_or_insert(("perm-dangling".into(), "a returned id does not resolve".into()));
-            } else if (vcommon::refs::canonical_from(&portable, &ids), portable.types.len()) != (vcommon::refs::canonical_from(&p0, &ids0), p0.types.len()) {
+            } else if (vcommon::refs::canonical_from(portable, ids), portable.types.len()) != (vcommon::refs::canonical_from(&p0, &ids0), p0.types.len()) {
                 fail.get_or_insert(("permutation-differs".into(), format!("registering all of {uname} in this order and in declaration order give registries that differ beyond a renaming of ids ({} vs {} entries)", portable.types.len(), p0.types.len())));
             }
         }
         _ => {}
     }
-    (steps, portable.types.len(), fail.map(|(k, m)| (format!("long:{k}"), format!("{m} — all {n} members of {uname} registered in rotation {rot}{}", if reversed { " reversed" } else { "" }))))
 }
 
 fn run_long(u: &[LMember], pid: &str, order: &[usize], fail: &mut Option<(String, String)>, sweep_every: usize) -> (PortableRegistry, Vec<u32>, u64) {
